@@ -23,6 +23,7 @@ build_demo
 ( cd $out && LD_LIBRARY_PATH=$wt/src/ksi/.libs timeout 300 ./demo.bin >$out/demo.without.txt 2>&1 ); echo "demo without change: rc=$?  $(tail -1 $out/demo.without.txt | cut -c1-150)"
 rm -f $out/demo.bin
 fi
+[ -n "${SKIP_CHECKS:-}" ] && exit 0
 # checks against /repo
 rm -f $out/detected.jsonl
 cd /verif
